@@ -35,7 +35,7 @@ import progast as P
 from checks import c04
 
 GEN = re.compile(r"\b_[A-Za-z]+\d+\b")
-KNOWN_COLLISION = "generated-name-collision:MultiAssign-version-vs-get_unique_var"
+KNOWN_COLLISION = "generated-name-collision:MultiAssign-version-vs-later-get_unique_var"
 KNOWN_INV_GOALS = "GoalsAction.parse_goals:cli_args.goals-mutated-by-first-benchmark"
 KNOWN_PLOT_LEAK = "PlotAction:numeric-settings-left-on:in-process-only"
 KNOWN_ARGV_LEAK = "ArgumentParser:defaults-read-from-mutated-settings:in-process-only"
@@ -58,20 +58,29 @@ def corpus20():
                           ("simult", [("x", P.det(v("y"))), ("y", P.det(("add", v("x"), c(1))))]),
                           ("assign", "t", P.det(("mul", v("t"), c(2))))]},
                 [{"t": 1}, {"x": 1}], "tag-named-variable"))
+    # the version name _r1 of a twice assigned variable r against the alias _r<counter> that ConditionsReducer creates LATER
+    out.append(({"types": [], "init": [("assign", "r", P.det(c(0))), ("assign", "f", P.det(c(0))), ("assign", "g", P.det(c(0))), ("assign", "x", P.det(c(0)))],
+                 "guard": ("true",),
+                 "body": [("assign", "f", ("draw", ("bern", c(F(1, 2))))), ("assign", "g", ("draw", ("bern", c(F(1, 2))))),
+                          ("assign", "r", ("draw", ("bern", c(F(1, 2))))),
+                          ("if", [(("atom", v("f"), "==", c(1)), [("assign", "f", P.det(c(0)))])], None),
+                          ("if", [(("atom", ("add", v("f"), v("g")), "==", c(1)), [("assign", "x", P.det(("add", v("x"), v("r"))))])], None),
+                          ("assign", "r", P.det(("sub", c(1), v("r"))))]},
+                [{"x": 1}, {"r": 1}], "tag-named-variable+later-alias"))
     # conditioned draw (error outcome is sensitive to a leaked cond2arithm)
-    out.append(({"types": [], "init": [("assign", "f0", P.det(c(0))), ("assign", "b", P.det(c(0))), ("assign", "a0", P.det(c(0)))],
+    out.append(({"types": [], "init": [("assign", "f0", P.det(c(0))), ("assign", "d0", P.det(c(0))), ("assign", "a0", P.det(c(0)))],
                  "guard": ("true",),
                  "body": [("assign", "f0", ("choice", [(c(F(1, 3)), c(0)), (c(F(1, 3)), c(1)), (c(F(1, 3)), c(2))])),
-                          ("if", [(("atom", v("f0"), ">=", c(1)), [("assign", "b", ("draw", ("bern", c(F(1, 4)))))])], None),
-                          ("assign", "a0", P.det(("add", v("a0"), v("b"))))]},
-                [{"a0": 1}, {"a0": 1, "b": 1}, {"f0": 2}], "conditioned-draw"))
+                          ("if", [(("atom", v("f0"), ">=", c(1)), [("assign", "d0", ("draw", ("bern", c(F(1, 4)))))])], None),
+                          ("assign", "a0", P.det(("add", v("a0"), v("d0"))))]},
+                [{"a0": 1}, {"a0": 1, "d0": 1}, {"f0": 2}], "conditioned-draw"))
     # Fibonacci-like: cyclic system with irrational roots (sensitive to leaked numeric settings)
     out.append(({"types": [], "init": [("assign", "f0", P.det(c(1))), ("assign", "a0", P.det(c(0)))], "guard": ("true",),
                  "body": [("simult", [("f0", P.det(("add", v("f0"), v("a0")))), ("a0", P.det(v("f0")))])]},
                 [{"f0": 1}, {"a0": 1}], "irrational-roots"))
     # three goals over a finite variable and an accumulator; same variable names as the generated programs
     out.append(({"types": [], "init": [("assign", "f0", P.det(c(0))), ("assign", "a0", P.det(c(1)))], "guard": ("true",),
-                 "body": [("assign", "f0", ("choice", [(c(F(1, 2)), c(0)), (c(F(1, 4)), c(1)), (c(F(1, 4)), c(3))])),
+                 "body": [("assign", "f0", ("choice", [(c(F(1, 4)), c(0)), (c(F(1, 4)), c(1)), (c(F(1, 4)), c(2)), (c(F(1, 4)), c(3))])),
                           ("if", [(("atom", v("f0"), "<", c(3)), [("assign", "a0", P.det(("add", v("a0"), v("f0"))))])],
                            [("assign", "a0", P.det(("mul", c(F(1, 2)), v("a0"))))])]},
                 [{"a0": 1}, {"a0": 2}, {"a0": 1, "f0": 1}], "three-goals"))
@@ -235,7 +244,7 @@ def run(ctx):
         return
     rng = ctx.rng
     NV = 7
-    n_prog = ctx.pick(10, 40)
+    n_prog = ctx.pick(8, 40)
     cands = list(corpus20())
     while len(cands) < 2 * n_prog:
         g = gen.G(rng, max_depth=rng.choice([1, 1, 2]), guard=rng.random() < 0.3, n_acc=rng.choice([0, 1, 1]))
@@ -278,13 +287,16 @@ def run(ctx):
                 ", ".join(f"P{i}" for i in pre) + ", B")
         # goal permutations
         gl = [gen.goal_text(m) for m in B[1]]
-        for perm in list(itertools.permutations(gl))[1:]:
+        perms = list(itertools.permutations(gl))[1:]
+        if ctx.quick and bi >= 4:
+            perms = perms[-1:]          # the reversed order only
+        for perm in perms:
             add("goal-permutation", bi, [{"op": "goals", "text": stepB["text"], "goals": list(perm)}], 0, "B with goals " + ", ".join(perm))
         # hash seeds
         for seed in ("1", "2", "3"):
             add("hash-seed", bi, [stepB], 0, f"B under PYTHONHASHSEED={seed}", seed=seed)
     # settings prefixes (a subset of programs)
-    sub = list(range(len(progs)))[:ctx.pick(6, 20)]
+    sub = list(range(len(progs)))[:ctx.pick(4, 20)]
     for bi in sub:
         B = progs[bi]
         A = progs[(bi + 1) % len(progs)]
@@ -468,6 +480,8 @@ def run(ctx):
     cli_stat = part_cli(ctx, progs)
     steps_s["cli-subprocesses"] = round(time.time() - _t, 1)
     ctx.coverage["cli_subprocess"] = cli_stat
+    tms = os.times()
+    ctx.coverage["cpu_seconds_children"] = round(tms.children_user + tms.children_system, 1)
     ctx.coverage["rule"] = ("programs from harness/gen.py (finite variables f*, accumulators a*: all programs share variable names, so stale caches keyed on "
                             "names would be visible) plus a corpus (tag-named variable, conditioned draw, irrational roots, three goals), kept when a "
                             "fresh process analyses them; one evaluation = one comparison of the record of the same analysis in two histories "
